@@ -74,6 +74,14 @@ pub fn log2_strict_usize(n: usize) -> (r: usize) requires is_pow2i(n as int) ens
 pub struct Dom { pub _p: () }
 pub struct PcsStub { pub _p: () }
 impl PcsStub { #[verifier::external_body] pub fn natural_domain_for_degree(&self, n: usize) -> Dom { unimplemented!() } }
+pub open spec fn pow2z(k: int) -> int decreases k { if k <= 0 { 1 } else { 2 * pow2z(k - 1) } }
+pub proof fn lemma_pow2z_pos(k: int) ensures pow2z(k) >= 1 decreases k { if k > 0 { lemma_pow2z_pos(k - 1); } }
+impl PcsStub {
+    /// natural_domain_for_degree builds TwoAdicMultiplicativeCoset::new(.., log2_strict_usize(n)): it panics ("Not a power of two") on n == 0
+    #[verifier::external_body] pub fn natural_domain_for_degree_nz(&self, n: usize) -> Dom requires n != 0 { unimplemented!() }
+}
+#[verifier::external_body] pub fn shl1_(k: usize) -> (r: usize) requires k < 64 ensures r == pow2z(k as int) { unimplemented!() }
+#[verifier::external_body] pub fn shr_(n: usize, k: usize) -> (r: usize) requires k < 64 ensures r == n / (pow2z(k as int) as usize) { unimplemented!() }
 pub struct CfgStub { pub zk: usize }
 impl CfgStub { pub fn is_zk(&self) -> (r: usize) ensures r == self.zk { self.zk } }
 /// the Merkle cap height the verifier was configured with (FriVerifierParams / the MMCS carry none: the circuit takes it from the proof)
@@ -115,6 +123,31 @@ def build():
     fns = []
     fns.append(challenges_fn(u, r'impl<SC, Dft, Comm, InputMmcs, RecursiveInputMmcs, RecursiveFriMmcs, FriMmcs> RecursivePcs<', 'TwoAdicFriPcs::get_challenges_circuit', False))
     fns.append(challenges_fn(u, r'impl<SC, Dft, Comm, InputMmcs, RecursiveInputMmcs, RecursiveFriMmcs, FriMmcs, R> RecursivePcs<', 'HidingFriPcs::get_challenges_circuit', True))
+    T_ = 'recursion/src/pcs/fri/targets.rs'
+    # ---------------------------------------------------------------- verify_circuit[query_index_width] x2: how many index bits a query gets
+    # C15: the width of the query index is what ties the proof's folding schedule to the verifier's OWN log_final_poly_len: verify_fri_circuit derives the expected
+    # final-polynomial length from (index bits - sum of log_arities - log_blowup), so the bits must be sum(log_arities) + params.log_final_poly_len + log_blowup
+    u.text('''verus! {
+pub open spec fn seq_sum_(s: Seq<usize>) -> int decreases s.len() { if s.len() == 0 { 0 } else { seq_sum_(s.drop_last()) + s.last() } }
+/// `xs.iter().sum::<usize>()` (overflow of the sum is a panic in debug, a wrap in release: the slice requires the sum to fit)
+#[verifier::external_body] pub fn iter_sum_(xs: &Vec<usize>) -> (r: usize) requires seq_sum_(xs@) <= usize::MAX ensures r == seq_sum_(xs@) { unimplemented!() }
+}''')
+    for cont, qual, prf in ((r'impl<SC, Dft, Comm, InputMmcs, RecursiveInputMmcs, RecursiveFriMmcs, FriMmcs> RecursivePcs<', 'TwoAdicFriPcs::verify_circuit[query_index_width]', 'opening_proof'),
+                            (r'impl<SC, Dft, Comm, InputMmcs, RecursiveInputMmcs, RecursiveFriMmcs, FriMmcs, R> RecursivePcs<', 'HidingFriPcs::verify_circuit[query_index_width]', 'fri_proof')):
+        q = u.extract(T_, cont, 'verify_circuit', qual)
+        m1 = re.search(r'let betas = &challenges\[[^;]*;', q.body)
+        m2 = re.search(r'let max_query_index_bits\b', q.body)
+        if not m1 or not m2 or m2.start() < m1.end():
+            raise ExtractError(f'lost anchor in {qual}: `let betas = &challenges[..];` .. `let max_query_index_bits`')
+        q.rewrites.append(('R13', f'function body := the statements between `let betas = ..;` and `let max_query_index_bits` ({m1.end()} chars of prefix, {len(q.body) - m2.start()} chars of suffix dropped), then the local log_max_height',
+                           'prefix: destructuring of the parameters, challenges; suffix: bit-width check, index sampling, verify_fri_circuit'))
+        q.body = '{\n' + q.body[m1.end():m2.start()] + '\nlog_max_height\n}'
+        nm_ = 'fn_' + ('hiding' if prf == 'fri_proof' else 'plain')
+        q.set_sig('R11', f'fn verify_circuit_{nm_}({prf}: &FriProofTargets, log_final_poly_len: usize, log_blowup: usize) -> usize', sliced=True)
+        q.rewrite_re('R6', r'let (\w+): usize = (\w+)\.log_arities\.iter\(\)\.sum\(\);', r'let \1: usize = iter_sum_(&\2.log_arities);', min_count=0)
+        q.requires('the_widths_fit', f'seq_sum_({prf}.log_arities@) + log_final_poly_len + log_blowup <= usize::MAX')
+        q.ensures('the_query_index_has_the_width_the_verifiers_own_final_polynomial_length_implies', f'ret == seq_sum_({prf}.log_arities@) + log_final_poly_len + log_blowup')
+        fns.append(q)
 
     # ---- open_input[evaluation_points_guard]
     V = 'recursion/src/pcs/fri/verifier.rs'
@@ -191,6 +224,26 @@ def build():
                   r'let base_db = match ext_db.checked_sub(config.is_zk()) { Some(b_) => b_, None => { return Err(\1); } };', min_count=0, flags_dotall=True)
     dm.rewrite_re('R11', r'\(1 << ', '(1usize << ', min_count=0)
     fns.append(dm)
+    # ---- uni-STARK verify_circuit[zk_degree_guard] (NO precondition on the claimed degree bits beyond the shift width): the initial trace domain of a hiding configuration
+    S_ = 'recursion/src/verifier/stark.rs'
+    zg = u.extract(S_, '', 'verify_p3_uni_proof_circuit', 'verify_p3_uni_proof_circuit[zk_degree_guard]')
+    m1 = re.search(r'let trace_domain = pcs\.natural_domain_for_degree\(degree\);', zg.body)
+    m2 = re.search(r'let init_trace_domain = [^;]*;', zg.body)
+    if not m1 or not m2 or m2.end() < m1.start():
+        raise ExtractError('lost anchor in verify_p3_uni_proof_circuit[zk_degree_guard]: `let trace_domain = ..;` .. `let init_trace_domain = ..;`')
+    zg.body = '{\n' + zg.body[m1.start():m2.end()] + '\n Ok(()) }'
+    zg.rewrites.append(('R13', 'function body := from `let trace_domain = pcs.natural_domain_for_degree(degree);` through `let init_trace_domain = ..;`, then Ok(())', 'everything else of the uni-STARK verifier'))
+    zg.set_sig('R11', 'fn verify_circuit_zk_guard(pcs: &PcsStub, config: &CfgStub, degree_bits: usize, degree: usize) -> Result<(), VerificationError>', sliced=True)
+    zg.erase_error_messages('VerificationError::InvalidProofShape')
+    zg.rewrite_re('R6', r'let (\w+) = degree_bits\.checked_sub\(config\.is_zk\(\)\)\.ok_or_else\(\|\| \{\s*(VerificationError::InvalidProofShape\(errmsg\(\)\))\s*\}\)\?;',
+                  r'let \1 = match degree_bits.checked_sub(config.is_zk()) { Some(b_) => b_, None => { return Err(\2); } };', min_count=0, flags_dotall=True)
+    zg.rewrite_re('R11', r'pcs\.natural_domain_for_degree\(', 'pcs.natural_domain_for_degree_nz(', min_count=1)
+    zg.rewrite_re('R11', r'\(1 << (\w+)\)', r'(shl1_(\1))', min_count=0)
+    zg.rewrite_re('R11', r'\(degree >> \(config\.is_zk\(\)\)\)', '(shr_(degree, config.is_zk()))', min_count=0)
+    zg.requires('claimed_degree', 'degree_bits < 64 && degree == pow2z(degree_bits as int) && config.zk <= 1')
+    zg.ensures('a_claimed_degree_below_the_zk_adjustment_is_an_error_not_a_panic', 'ret is Ok ==> degree_bits >= config.zk')
+    zg.at_start('proof { lemma_pow2z_pos(degree_bits as int); }')
+    fns.append(zg)
     u.text('verus! {')
     u.text('pub mod two_adic { use super::*;')
     u.emit(fns[0])
